@@ -302,8 +302,20 @@ func reachingStoresAt(load ssa.Instruction, a *ssa.Alloc) []*ssa.Store {
 		return ok && resolveFree(st.Addr) == ssa.Value(a)
 	}
 	var out []*ssa.Store
+	/* Has a deferred function possibly run by the time of the use? */
+	afterDefers := false
+	eachInstr(a.Parent(), func(i ssa.Instruction) {
+		if _, isRun := i.(*ssa.RunDefers); isRun && canReach(locOf(i), use) {
+			afterDefers = true
+		}
+	})
 	for _, st := range all {
 		if st.Parent() != a.Parent() {
+			/* A store made by a function literal which is only ever
+			deferred happens when the deferred calls run, not before. */
+			if !afterDefers && deferredOnly(st.Parent(), a.Parent()) {
+				continue
+			}
 			out = append(out, st)
 			continue
 		}
@@ -403,4 +415,33 @@ func brokerChan(p *Prog, elem string) *types.Var {
 		return nil
 	}
 	return out
+}
+
+// deferredOnly: the function literal g of parent is made once and used only
+// as the callee of a defer statement of parent.
+func deferredOnly(g, parent *ssa.Function) bool {
+	if nil == g || g.Parent() != parent {
+		return false
+	}
+	n := 0
+	ok := true
+	eachInstr(parent, func(i ssa.Instruction) {
+		mc, isMC := i.(*ssa.MakeClosure)
+		if !isMC || mc.Fn != ssa.Value(g) {
+			return
+		}
+		n++
+		for _, ref := range *mc.Referrers() {
+			switch x := ref.(type) {
+			case *ssa.Defer:
+				if x.Common().Value != ssa.Value(mc) {
+					ok = false
+				}
+			case *ssa.DebugRef:
+			default:
+				ok = false
+			}
+		}
+	})
+	return ok && 1 == n
 }
